@@ -87,6 +87,17 @@ def logical_type(lt):
     empty = {"STRING": 1, "MAP": 2, "LIST": 3, "ENUM": 4, "DATE": 6, "NULL": 11, "JSON": 12, "BSON": 13,
              "UUID": 14, "FLOAT16": 15}
     k = lt[0]
+    if k == "RAW":
+        # any union member id with a body of our choosing: 0 empty struct, 1 struct with fields, 2 nested structs and a list
+        fid, variant = lt[1], lt[2]
+        if variant == 0:
+            body = []
+        elif variant == 1:
+            body = [(1, T_I32, 7), (2, T_BINARY, b"crs:84"), (3, T_BOOL, True), (5, T_I64, -3)]
+        else:
+            body = [(1, T_STRUCT, [(1, T_I32, 1), (2, T_STRUCT, [(4, T_BINARY, b"x")])]),
+                    (2, T_LIST, (T_STRUCT, [[(1, T_BYTE, 3)], []])), (3, T_BINARY, b"")]
+        return [(fid, T_STRUCT, body)]
     if k in empty:
         return [(empty[k], T_STRUCT, [])]
     if k == "DECIMAL":
